@@ -21,6 +21,13 @@ void h_closeNow(void)
   if (G_closeCb_calls) { IORA_CANARY("h_closeNow: callback ran"); } else { IORA_CANARY("h_closeNow: no callback registered"); }
 }
 
+void h_closeNow_idem(void)
+{
+  UdpEngine *e; Session *s; TransportError why; iora_strid m; int u;
+  UdpEngine_closeNow(e, s, why, m, u);
+  IORA_CANARY("h_closeNow_idem: returns");
+}
+
 #ifdef IORA_SEARCH
 /* SEARCH (bounded stand-in used only to obtain a concrete scenario for REPLAY): concrete engine, one session, scalar nondet inputs */
 void h_search(void)
